@@ -778,7 +778,18 @@ fn decompress_udp(
     *decompressed_len += udp_repr.0.header_len() + payload.len();
     let mut udp = UdpPacket::new_unchecked(&mut buffer[..payload.len() + 8]);
     udp_repr.0.emit_header(&mut udp, udp_payload_len);
+    // Carry the transmitted checksum over into the decompressed header, so that it is verified
+    // like the checksum of any other UDP datagram once the datagram is complete.
+    if let Some(checksum) = udp_packet.checksum() {
+        udp.set_checksum(checksum);
+    }
     buffer[8..][..payload.len()].copy_from_slice(payload);
+    // An elided checksum is recomputed by the decompressor (RFC 6282 § 4.3.2). This needs the
+    // whole datagram, so it cannot be done for a datagram that arrives in fragments.
+    if udp_packet.checksum().is_none() && total_len.is_none() {
+        UdpPacket::new_unchecked(&mut buffer[..payload.len() + 8])
+            .fill_checksum(&iphc_repr.src_addr.into(), &iphc_repr.dst_addr.into());
+    }
     Ok(())
 }
 
